@@ -732,6 +732,41 @@ pub fn check_inv(slots: &[RawSlot], require_single_root: bool) -> Result<(), Str
     Ok(())
 }
 
+/// the public read accessors of `Node` (`get_depth`, `is_root`, `is_tip`, `get_child_edge`, the public fields) against the raw
+/// view of the arena, for every live node
+pub fn accessors_agree(t: &Tree, slots: &[RawSlot]) -> Result<(), String> {
+    for (i, s) in slots.iter().enumerate() {
+        if s.deleted {
+            if t.get(&i).is_ok() {
+                return Err(format!("removed-slot-readable slot={i}"));
+            }
+            continue;
+        }
+        let n = t.get(&i).map_err(|e| format!("live-slot-not-readable slot={i} {e:?}"))?;
+        if n.id != s.id || n.parent != s.parent || n.children != s.children || n.name != s.name || n.comment != s.comment {
+            return Err(format!("public-fields slot={i}"));
+        }
+        if n.get_depth() != s.depth {
+            return Err(format!("get_depth slot={i} says {} stored {}", n.get_depth(), s.depth));
+        }
+        if n.is_root() != s.parent.is_none() || n.is_tip() != s.children.is_empty() {
+            return Err(format!("is_root-is_tip slot={i}"));
+        }
+        for &c in s.children.iter() {
+            let raw = s.child_edges.as_ref().and_then(|m| m.iter().find(|(k, _)| *k == c).map(|(_, e)| *e));
+            let got = n.get_child_edge(&c);
+            let same = match (raw, got) { (None, None) => true, (Some(a), Some(b)) => a.to_bits() == b.to_bits() || (a.is_nan() && b.is_nan()), _ => false };
+            if !same {
+                return Err(format!("get_child_edge parent={i} child={c} says {got:?} stored {raw:?}"));
+            }
+        }
+        if n.get_child_edge(&slots.len()).is_some() {
+            return Err(format!("get_child_edge-of-a-stranger parent={i}"));
+        }
+    }
+    Ok(())
+}
+
 /// short signature of an invariant failure (clause name only)
 pub fn inv_sig(msg: &str) -> String {
     let w = msg.split_whitespace().next().unwrap_or("inv");
